@@ -195,6 +195,7 @@ type InfoLite struct {
 type ProbeLite struct {
 	InitialDelay, Period, Timeout, Success, Failure int
 	HTTP                                            bool
+	Exec                                            string
 	Host, Scheme, Path, Port                        string
 	NumPort                                         int
 }
@@ -204,6 +205,9 @@ func probeLite(p *health.Probe) *ProbeLite {
 		return nil
 	}
 	l := &ProbeLite{InitialDelay: p.InitialDelay, Period: p.PeriodSeconds, Timeout: p.TimeoutSeconds, Success: p.SuccessThreshold, Failure: p.FailureThreshold}
+	if p.Exec != nil {
+		l.Exec = p.Exec.Command
+	}
 	if p.HttpGet != nil {
 		l.HTTP, l.Host, l.Scheme, l.Path, l.Port, l.NumPort = true, p.HttpGet.Host, p.HttpGet.Scheme, p.HttpGet.Path, p.HttpGet.Port, p.HttpGet.NumPort
 	}
@@ -620,7 +624,7 @@ func (rc *runCtx) runClient(c *Client) {
 			simsync.Yield(simsync.SiteHarness)
 		}
 		desc := op.Op + "(" + op.Arg
-		if op.Op == "scale" || op.Op == "log" || op.Op == "update" || op.Op == "audit" || op.Op == "signal" {
+		if op.Op == "scale" || op.Op == "log" || op.Op == "update" || op.Op == "reload" || op.Op == "audit" || op.Op == "signal" {
 			desc += fmt.Sprintf(",%d", op.N)
 		}
 		if len(op.Args) > 0 {
@@ -716,6 +720,15 @@ func (rc *runCtx) doOp(op *Op) (any, error) {
 		}
 		delete(rc.subs, op.Arg)
 		return nil, p.UnSubscribeLogger(op.Arg, conn)
+	case "reload":
+		// the files the project was loaded from are rewritten, then the runner reloads them
+		if op.N >= len(rc.sc.Updates) {
+			return nil, fmt.Errorf("harness: no update %d", op.N)
+		}
+		if err := os.WriteFile(rc.tmp+"/pc.yaml", []byte(rc.sc.Updates[op.N].Render(rc.tmp)), 0o644); err != nil {
+			return nil, fmt.Errorf("harness: %w", err)
+		}
+		return p.ReloadProject()
 	case "update":
 		if op.N >= len(rc.sc.Updates) {
 			return nil, fmt.Errorf("harness: no update %d", op.N)
